@@ -201,6 +201,32 @@ theorem walk_strict_lenient (root : Node) (fuel : Nat) (cur rest : Comps) (x : N
       rw [(segment_strict_lenient root cur rest).2 c r hs]
       exact ih c r h
 
+theorem walk_done {l : Bool} {root : Node} {cur rest q : Comps} (h : segment l root cur rest = .done q) (f : Nat) :
+    walk l root f cur rest = .ok (f, q) := by
+  cases f <;> simp [walk, h]
+
+/-- more fuel never changes the outcome of a successful walk -/
+theorem walk_fuel_mono (l : Bool) (root : Node) (f k : Nat) (cur rest : Comps) (f' : Nat) (q : Comps)
+    (h : walk l root f cur rest = .ok (f', q)) : walk l root (f + k) cur rest = .ok (f' + k, q) := by
+  induction f generalizing cur rest with
+  | zero =>
+    simp only [walk] at h
+    cases hs : segment l root cur rest with
+    | done q' => rw [hs] at h; cases h; simpa using walk_done hs (0 + k)
+    | err e => rw [hs] at h; cases h
+    | follow c r => rw [hs] at h; cases h
+  | succ f ih =>
+    simp only [walk] at h
+    cases hs : segment l root cur rest with
+    | done q' => rw [hs] at h; cases h; exact walk_done hs _
+    | err e => rw [hs] at h; cases h
+    | follow c r =>
+      rw [hs] at h
+      have := ih c r h
+      have e : f + 1 + k = (f + k) + 1 := by omega
+      rw [e, walk, hs]
+      exact this
+
 /-- a strict walk that consumes at least one component started in a directory -/
 theorem walk_strict_isDir (root : Node) (fuel : Nat) (cur : Comps) (c : Name) (rest : Comps) (x : Nat × Comps)
     (h : walk false root fuel cur (c :: rest) = .ok x) : isDir (nodeAt root cur) = true := by
@@ -342,8 +368,10 @@ theorem stat_factors {fs : FS} {r : Nat} {bp rel : Comps} {n : Node} (h : kstat 
     rw [h1] at hw
     simp only [andThen] at hw
     refine ⟨f1, m, f, q, rfl, hw, hn, ?_, ?_⟩
-    · simp only [pyResolve, hb, hs, Bool.false_eq_true, if_false, walk_strict_lenient _ _ _ _ _ hw']
-    · simp only [pyResolve, hasBadChar_prefix hb, Bool.false_eq_true, if_false, walk_strict_lenient _ _ _ _ _ h1]
+    · simp only [pyResolve, hb, hs, Bool.false_eq_true, if_false,
+        walk_fuel_mono _ _ _ fs.extraLinks _ _ _ _ (walk_strict_lenient _ _ _ _ _ hw')]
+    · simp only [pyResolve, hasBadChar_prefix hb, Bool.false_eq_true, if_false,
+        walk_fuel_mono _ _ _ fs.extraLinks _ _ _ _ (walk_strict_lenient _ _ _ _ _ h1)]
 
 /-! ## the loaders' loops -/
 
